@@ -75,6 +75,30 @@ READERS = {
     'skoolkit/loadtracer.py': {'C06', 'C08', 'C10', 'C13', 'C20'},
     'skoolkit/skoolmacro.py': {'C04', 'C15', 'C16', 'C17'},
     'skoolkit/skoolctl.py': {'C03'},
+    'skoolkit/simtables.py': {'C05', 'C06', 'C19'},
+    'skoolkit/opcodes.py': {'C07', 'C14'},
+    'skoolkit/traceutils.py': {'C05', 'C07'},
+    'skoolkit/z80.py': {'C01', 'C02', 'C04', 'C07', 'C13', 'C14'},
+    'skoolkit/disassembler.py': {'C01', 'C02', 'C07', 'C12', 'C13', 'C14'},
+    'skoolkit/skool2bin.py': {'C01', 'C04', 'C14'},
+    'skoolkit/simutils.py': {'C06', 'C09', 'C10', 'C19', 'C20'},
+    'skoolkit/pagingtracer.py': {'C06', 'C08', 'C10', 'C20'},
+    'skoolkit/skool2html.py': {'C16'},
+    'skoolkit/skoolparser.py': {'C04', 'C16', 'C17', 'C18'},
+    'skoolkit/defaults.py': {'C16', 'C18'},
+    'skoolkit/tapinfo.py': {'C11'},
+    'skoolkit/loadsample.py': {'C13'},
+    'skoolkit/pngwriter.py': {'C15'},
+    'skoolkit/sna2img.py': {'C15'},
+    'skoolkit/sna2ctl.py': {'C14'},
+    'skoolkit/textutils.py': {'C02', 'C03', 'C04'},
+    'skoolkit/snapmod.py': {'C09'},
+    'skoolkit/bin2sna.py': {'C09'},
+    'skoolkit/kbtracer.py': {'C12'},
+    'skoolkit/rzxinfo.py': {'C20'},
+    'skoolkit/sna2skool.py': {'C01', 'C14'},
+    'skoolkit/skool2ctl.py': {'C03'},
+    'skoolkit/refparser.py': {'C16'},
     'skoolkit/tap2sna.py': {'C12', 'C13'},
     'skoolkit/skoolutils.py': {'C01', 'C03', 'C04', 'C14', 'C17', 'C18'},
     'skoolkit/ctlparser.py': {'C01', 'C03', 'C14', 'C18'},
@@ -124,6 +148,24 @@ def run(prop, mod, repo):
             with open(os.path.join(root, rel), 'w') as f:
                 f.write(new)
             jobs.append(('twin', desc, root, 0))
+        # twins written by independent sub-agents (twins/<ID>-<v>/patch.diff), applied when they touch a file this check reads
+        twins_dir = os.path.join(VERIF, 'twins')
+        if os.path.isdir(twins_dir):
+            for tid in sorted(os.listdir(twins_dir)):
+                pf = os.path.join(twins_dir, tid, 'patch.diff')
+                mp = os.path.join(twins_dir, tid, 'meta.json')
+                if not (os.path.exists(pf) and os.path.exists(mp)):
+                    continue
+                files = json.load(open(mp)).get('files', [])
+                if not any(prop in READERS.get(f, {prop}) for f in files):
+                    continue
+                root = os.path.join(base, 'atwin-%s' % tid)
+                _copy_tree(repo, root)
+                a = subprocess.run(['patch', '-p1', '-s', '-f', '-d', root, '-i', pf], capture_output=True, text=True)
+                if a.returncode != 0:
+                    shutil.rmtree(root, ignore_errors=True)
+                    continue          # the twin no longer applies to this tree
+                jobs.append(('twin', 'agent: ' + tid, root, 0))
         # bulk twins of the whole package (sa/selftest/bulk.py)
         from sa.selftest import bulk
         C_READERS = {'C05', 'C06', 'C07', 'C08', 'C10', 'C12', 'C13', 'C19', 'C20'}
